@@ -389,7 +389,10 @@ inline int run_all(char const* module_comment, std::ostream& out, std::ostream& 
 			if (I.undefined) { ++st.skipped_undef; continue; }
 			e.cc(cc); ++st.trials;
 			bool ok = cc.outs.size() == mv.size();
-			for (size_t i = 0; ok && i < mv.size(); ++i) { Node const& on = g.nodes[leaf->outs[i]]; Kind rk = (op_is_cmp(on.op) || on.op == ISNAN || on.op == ISINF || on.op == LNOT || on.op == LAND || on.op == LOR) ? KB : on.k; ok = bits_equal(cc.outs[i].val.k, cc.outs[i].val.bits, mv[i]) && cc.outs[i].val.k == rk; }
+			for (size_t i = 0; ok && i < mv.size(); ++i) { Node const& on = g.nodes[leaf->outs[i]]; Kind rk = (op_is_cmp(on.op) || on.op == ISNAN || on.op == ISINF || on.op == LNOT || on.op == LAND || on.op == LOR) ? KB : on.k; ok = bits_equal(cc.outs[i].val.k, cc.outs[i].val.bits, mv[i]) && cc.outs[i].val.k == rk;
+				// std::fmin / std::fmax of +0 and -0 may return either zero (and the compiler may fold the call differently in the two instantiations): with such a node in the graph, zeros of either sign agree
+				if (!ok && cc.outs[i].val.k == rk && (rk == F32 || rk == F64)) { bool fm = false; for (auto const& nd : g.nodes) if (nd.op == FMIN || nd.op == FMAX) { fm = true; break; }
+					bool zi = rk == F32 ? from_bits<float>(cc.outs[i].val.bits) == 0.0f : from_bits<double>(cc.outs[i].val.bits) == 0.0, zm = rk == F32 ? from_bits<float>(mv[i]) == 0.0f : from_bits<double>(mv[i]) == 0.0; if (fm && zi && zm) ok = true; } }
 			if (!ok) {
 				++st.mismatches;
 				log << "MISMATCH " << e.name << " flavour=" << fl << " trial=" << t << " seed=" << seed << " impl=[";
